@@ -86,6 +86,26 @@ def refused_requests_leave_no_journal_entry(ctx, rep, rid):
                'the journal append is not dominated by the success edge of any System operation: the command is journalled although it may be refused')
 
 
+def user_ids_after_validation(ctx, rep, rid):
+    """shared with C10 (a personal access token is journalled under the numeric id of its owner)"""
+    rep.rule(rid, 'user ids are allocated after validation: no refusal of create_user (name taken, limit reached) is reachable once USER_ID has been advanced — the journalled CreateUser carries no id and replay numbers users gap-free, so an id burnt by a refused request makes every later user differ after a restart', floor=2, analysis='A2 ordering')
+    cub = ctx.fn_body('server::streaming::systems::system::System::create_user')
+    adv = [c for c in cub.calls if c.name.endswith('Atomic::fetch_add') and is_user_call(c) and canon(cub.pexpr_operand(c.args[0], 0, frozenset(), (c.bb, 't')), 0, 1).startswith('{alloc')]   # the static USER_ID (a static is an allocation in MIR, its name is not kept)
+    if not adv:
+        rep.anchor_lost(rid, 'USER_ID.fetch_add in System::create_user')
+    for c in adv:
+        after = set()
+        for x in cub.succ(c.bb):
+            after |= cub.reachable(x)
+        for blk in sorted(cub.reach):
+            for s_ in cub.stmts(blk):
+                rv_ = s_.get('rv')
+                if rv_ and rv_['r'] == 'agg' and rv_.get('adt') == 'iggy::error::IggyError' and rv_['variant'] in ('UserAlreadyExists', 'UsersLimitReached'):
+                    ok = blk not in after
+                    rep.ob(rid, 'server::streaming::systems::system::System::create_user', rv_['variant'] + ' before the id is taken', ok, '%s:%s' % (cub.file, s_.get('ln')), None if ok else
+                           '%s can be returned after USER_ID was advanced: the refused request has consumed an id that replay will hand to the next user' % rv_['variant'])
+
+
 def journalled_decoders_do_not_validate(ctx, rep, rid):
     """shared with C13: the journal is decoded with the wire decoders, but what a handler journals is a transformed command (hashed or
     blanked secrets, resolved ids and limits) that need not satisfy request validation; validation is a separate step before dispatch (R13.e)"""
@@ -317,22 +337,7 @@ def run(ctx, rep):
     replay_partition_numbering(ctx, rep, 'R05.q')
 
     # ------------------------------------------------------------ R05.r a refused create_user consumes no user id
-    rep.rule('R05.r', 'user ids are allocated after validation: no refusal of create_user (name taken, limit reached) is reachable once USER_ID has been advanced — the journalled CreateUser carries no id and replay numbers users gap-free, so an id burnt by a refused request makes every later user differ after a restart', floor=2, analysis='A2 ordering')
-    cub = ctx.fn_body('server::streaming::systems::system::System::create_user')
-    adv = [c for c in cub.calls if c.name.endswith('Atomic::fetch_add') and is_user_call(c) and canon(cub.pexpr_operand(c.args[0], 0, frozenset(), (c.bb, 't')), 0, 1).startswith('{alloc')]   # the static USER_ID (a static is an allocation in MIR, its name is not kept)
-    if not adv:
-        rep.anchor_lost('R05.r', 'USER_ID.fetch_add in System::create_user')
-    for c in adv:
-        after = set()
-        for x in cub.succ(c.bb):
-            after |= cub.reachable(x)
-        for blk in sorted(cub.reach):
-            for s_ in cub.stmts(blk):
-                rv_ = s_.get('rv')
-                if rv_ and rv_['r'] == 'agg' and rv_.get('adt') == 'iggy::error::IggyError' and rv_['variant'] in ('UserAlreadyExists', 'UsersLimitReached'):
-                    ok = blk not in after
-                    rep.ob('R05.r', 'server::streaming::systems::system::System::create_user', rv_['variant'] + ' before the id is taken', ok, '%s:%s' % (cub.file, s_.get('ln')), None if ok else
-                           '%s can be returned after USER_ID was advanced: the refused request has consumed an id that replay will hand to the next user' % rv_['variant'])
+    user_ids_after_validation(ctx, rep, 'R05.r')
 
     # ------------------------------------------------------------ R05.e start-up deletes only what replay does not know
     rep.rule('R05.e', 'start-up removes a data directory only on the "not found in replayed state" edge', floor=2, analysis='A3')
